@@ -1539,6 +1539,12 @@ func (b *Body) oneOperationPerStep(l *Ledger, ai *applyInfo) {
 		if !isRangeIndex(h, idx, x) {
 			bad = "the patch is read at " + b.posOf(i) + " with an index that is not the dispatch loop's own: an operation other than the current one is looked at (or skipped)"
 		}
+		// … and the loop runs over the whole patch, from its first operation: a part of it
+		// (the operations from the last root replacement on, say) leaves out operations whose
+		// failure is the patch's outcome
+		if sl, ok := unwrapConv(x).(*ssa.Slice); ok && (sl.Low != nil || sl.High != nil) {
+			bad = "the dispatch loop runs over " + describeValue(sl) + " (" + b.posOf(sl) + "), a part of the patch: the operations outside it are never applied, so one of them that cannot be applied no longer fails the patch"
+		}
 	})
 	if bad != "" {
 		l.add("R-DISPATCH", b.Name, key, b.rel(fn.Pos()), Violated, bad, true)
@@ -2235,5 +2241,258 @@ func (b *Body) surrogatePairs(l *Ledger) {
 		l.add("R-TABLES", "codec", key, b.rel(fn.Pos()), Undecided, fmt.Sprintf("%d rune write(s), %d utf16.DecodeRune call(s): the decoding of escapes was not recognised", n, pairs), true)
 	default:
 		l.add("R-TABLES", "codec", key, b.rel(fn.Pos()), Discharged, fmt.Sprintf("%d rune write(s); the surrogate pair goes through utf16.DecodeRune on two getu4 results", n), true)
+	}
+}
+
+// decodedSidesTestedFirst (R-MERGESHAPE M10): in doMergePatch each of the two decoded sides —
+// an object container decoded in place, whose member map stays nil when the text was null —
+// is handed to the merge walk, the pruning or the encoder only after its member map was
+// tested: the test (with the error test it is combined with) comes before every such use on
+// every path, and its nil edge leaves the function. Moving the tests into the branch where
+// both sides decoded lets a null patch reach the pruning of a non-object document's
+// replacement, where it fails at the encoder instead of replacing the document.
+func (b *Body) decodedSidesTestedFirst(l *Ledger) {
+	fn := fnOf(b.Lib, "doMergePatch")
+	if fn == nil || len(fn.Blocks) == 0 || b.Name != "v5" {
+		return // the legacy package decodes into a map type: null is a nil map that every use tests
+	}
+	key := "(M10) doMergePatch: a decoded side reaches the merge walk, the pruning and the encoder only after its member map was tested"
+	n := 0
+	bad := ""
+	allInstrs(fn, func(i ssa.Instruction) {
+		al, ok := i.(*ssa.Alloc)
+		if !ok || !isNamed(derefPtr(al.Type()), "partialDoc") {
+			return
+		}
+		n++
+		// the values that can be this side: the allocation and the phis it flows into
+		is := map[ssa.Value]bool{al: true}
+		for changed := true; changed; {
+			changed = false
+			allInstrs(fn, func(j ssa.Instruction) {
+				if ph, ok := j.(*ssa.Phi); ok && !is[ph] {
+					for _, e := range ph.Edges {
+						if is[e] {
+							is[ph] = true
+							changed = true
+						}
+					}
+				}
+			})
+		}
+		// the test of its member map
+		var test *ssa.BasicBlock
+		allInstrs(fn, func(j ssa.Instruction) {
+			iff, ok := j.(*ssa.If)
+			if !ok {
+				return
+			}
+			x, nonNilOnTrue, ok := nilTestOfCond(iff.Cond)
+			if !ok {
+				return
+			}
+			ld, ok := x.(*ssa.UnOp)
+			if !ok {
+				return
+			}
+			fa, ok := ld.X.(*ssa.FieldAddr)
+			if !ok || fa.X != ssa.Value(al) || fieldOfAddr(fa).Field != "obj" {
+				return
+			}
+			nilSucc := 0
+			if nonNilOnTrue {
+				nilSucc = 1
+			}
+			if _, isRet := lastInstr(iff.Block().Succs[nilSucc]).(*ssa.Return); !isRet {
+				return
+			}
+			// the head of the compound condition the test is an operand of: `e == nil && m == nil`
+			// is two branches that share the exit taken when the condition fails
+			t := iff.Block()
+			for len(t.Preds) == 1 && operandBlock(t) {
+				p := t.Preds[0]
+				shared := false
+				for _, ps := range p.Succs {
+					if ps == t {
+						continue
+					}
+					for _, ts := range t.Succs {
+						if ps == ts {
+							shared = true
+						}
+					}
+				}
+				if !shared {
+					break
+				}
+				t = p
+			}
+			if test == nil || t.Dominates(test) {
+				test = t
+			}
+		})
+		if test == nil {
+			bad = "the member map of the side allocated at " + b.posOf(al) + " is never tested with an exit on nil: a null text is taken for an object without members"
+			return
+		}
+		allInstrs(fn, func(j ssa.Instruction) {
+			call, ok := j.(*ssa.Call)
+			if !ok {
+				return
+			}
+			for ai, a := range call.Call.Args {
+				if !is[a] {
+					if mi, ok := a.(*ssa.MakeInterface); !ok || !is[mi.X] {
+						continue
+					}
+				}
+				if f := call.Call.StaticCallee(); f != nil && ai == 0 && f.Signature.Recv() != nil && strings.HasPrefix(f.Name(), "Unmarshal") {
+					continue // the decode itself
+				}
+				if !test.Dominates(call.Block()) || test == call.Block() {
+					bad = "the side allocated at " + b.posOf(al) + " is handed to " + describeCallee(call) + " at " + b.posOf(call) + " on a path that has not passed the test of its member map (" + b.posOf(lastInstr(test)) + "): null — a decoded side without a member map — is treated as an object there"
+				}
+			}
+		})
+	})
+	if n == 0 {
+		return
+	}
+	if bad != "" {
+		l.add("R-MERGESHAPE", b.Name, key, b.rel(fn.Pos()), Violated, bad, true)
+	} else {
+		l.add("R-MERGESHAPE", b.Name, key, b.rel(fn.Pos()), Discharged, fmt.Sprintf("%d decoded side(s); the nil test of each member map (exit on nil) dominates every call that is handed that side", n), true)
+	}
+}
+
+func describeCallee(call *ssa.Call) string {
+	if f := call.Call.StaticCallee(); f != nil {
+		return fname(f)
+	}
+	if call.Call.IsInvoke() {
+		return call.Call.Method.Name()
+	}
+	return "a function value"
+}
+
+// hooksSucceedBehindDecoder (R-GATE): the decode hooks of the two containers report success
+// only where the codec's decoder did: every return with a nil error is the decoder call's own
+// result or lies on the nil edge of its error. A shortcut that returns early for a text it
+// recognises ("[]" has no elements to decode) leaves the container as it was allocated — a
+// nil element list, which is how null is held — and the empty array is written out as null.
+func (b *Body) hooksSucceedBehindDecoder(l *Ledger) {
+	for _, tn := range []string{"partialDoc", "partialArray"} {
+		fn := b.method(b.Lib, tn, "UnmarshalJSON")
+		if fn == nil || len(fn.Blocks) == 0 {
+			continue
+		}
+		ei := errResultIndex(fn)
+		if ei < 0 {
+			continue
+		}
+		key := fname(fn) + ": succeeds only where the codec's decoder succeeded"
+		var decs []*ssa.Call
+		allInstrs(fn, func(i ssa.Instruction) {
+			if call, ok := i.(*ssa.Call); ok {
+				if f := call.Call.StaticCallee(); f != nil && b.Codec != nil && f.Pkg == b.Codec && strings.HasPrefix(f.Name(), "Unmarshal") {
+					decs = append(decs, call)
+				}
+			}
+		})
+		bad := ""
+		n := 0
+		for _, r := range liveReturns(fn) {
+			rv := retVal(r, ei)
+			n++
+			if call, _, ok := asResult(rootErr(rv)); ok {
+				isDec := false
+				for _, d := range decs {
+					if d == call {
+						isDec = true
+					}
+				}
+				if isDec {
+					continue
+				}
+			}
+			if !isNilConst(rv) {
+				continue // a refusal: decodeRefusals judges those
+			}
+			behind := false
+			for _, d := range decs {
+				for _, e := range errResultOf(d) {
+					for _, t := range errChecks(e) {
+						if !t.Chain && (t.Blk.Succs[1-t.NonNilSucc] == r.Block() || edgeDominates(t.Blk, 1-t.NonNilSucc, r.Block())) {
+							behind = true
+						}
+					}
+				}
+			}
+			if !behind {
+				bad = "the return at " + b.posOf(r) + " reports success without the decoder having run successfully: the container stays as it was allocated (no member map / no element list — the spelling of null)"
+			}
+		}
+		if len(decs) == 0 {
+			bad = "no call of the codec's decoder found"
+		}
+		if bad != "" {
+			l.add("R-GATE", b.Name, key, b.rel(fn.Pos()), Violated, bad, true)
+		} else {
+			l.add("R-GATE", b.Name, key, b.rel(fn.Pos()), Discharged, fmt.Sprintf("%d return(s): the decoder's own result, or behind the nil edge of its error", n), true)
+		}
+	}
+}
+
+// onlyTheEncoderFailsAfterTheLoop (R-SUCCESS): once every operation has been applied the
+// apply function fails only if writing the result does: every error return behind the
+// dispatch loop hands on the error of a call made there (the encoder, the indenter). A second
+// look at the result (is it nested deeper than the scanner reads?) turns a patch whose every
+// operation applied into a failure.
+func (b *Body) onlyTheEncoderFailsAfterTheLoop(l *Ledger, ai *applyInfo) {
+	fn := ai.loopFn
+	ds := ai.dispatchSite()
+	if fn == nil || ds == nil {
+		return
+	}
+	h := innermostLoopHeader(ds.Block())
+	if h == nil {
+		return
+	}
+	ei := errResultIndex(fn)
+	if ei < 0 {
+		return
+	}
+	loop := naturalLoop(h)
+	key := "apply: after the last operation only the failure of a call made there (encoder, indenter) is reported"
+	n := 0
+	bad := ""
+	for _, r := range liveReturns(fn) {
+		if loop[r.Block()] || !h.Dominates(r.Block()) {
+			continue
+		}
+		rv := retVal(r, ei)
+		if isNilConst(rv) {
+			continue
+		}
+		// the exit of the loop on a handler's error is part of the loop's business
+		fromLoop := false
+		for _, e := range b.controlDeps(r.Block()) {
+			if loop[e.From] && e.From != h {
+				fromLoop = true
+			}
+		}
+		if fromLoop {
+			continue
+		}
+		n++
+		if call, _, ok := asResult(rootErr(rv)); ok && !loop[call.Block()] && h.Dominates(call.Block()) {
+			continue
+		}
+		bad = "the error return at " + b.posOf(r) + " behind the operation loop is not the failure of a call made there: a patch whose operations all applied is reported as failed"
+	}
+	if bad != "" {
+		l.add("R-SUCCESS", b.Name, key, b.rel(fn.Pos()), Violated, bad, true)
+	} else if n > 0 {
+		l.add("R-SUCCESS", b.Name, key, b.rel(fn.Pos()), Discharged, fmt.Sprintf("%d error return(s) behind the loop, each the error of a call made behind the loop", n), true)
 	}
 }
